@@ -109,6 +109,7 @@ func genC03(rng *rand.Rand, prop, tier string, idx int) interface{} {
 	sc.Acts = genActs(rng, rng.Intn(41), nkeys, []int{0, 1, 10, p / 3, p, 2 * p})
 	sc.LogYield = rng.Intn(4) == 0
 	sc.Sim = SimCfg{Strategy: randStrategy(rng, libGoroutines), NewTimers: rng.Intn(4) == 0, PermuteMaps: true, MaxSteps: 400000, EstSteps: 3000}
+	sc.Sim.Strategy.StallMaxMs = 2 * p
 	return sc
 }
 
@@ -155,6 +156,7 @@ func genC04(rng *rand.Rand, prop, tier string, idx int) interface{} {
 	sc.Sim = SimCfg{Strategy: randStrategy(rng, []string{"Create>c.run", "newWatcher>w.run", "newWatchSession>s.run", "c.pump", "newSubscription>s.run"}),
 		NewTimers: rng.Intn(4) == 0, PermuteMaps: true, MaxSteps: 400000, EstSteps: 3000}
 	sc.Sim.Strategy.StallPermille = pickInt(rng, 0, 0, 5)
+	sc.Sim.Strategy.StallMaxMs = 1500
 	return sc
 }
 
